@@ -556,3 +556,57 @@ void h3sim_free(void *ptr) {
     doFree(ptr, (uintptr_t)__builtin_return_address(0));
 }
 }
+
+// ---- allocator shim of the reference copy --------------------------------
+// The reference copy is compiled with the default allocator binding; its libc
+// allocator calls are renamed to these at link time.  The shim is the default
+// allocator made deterministic: fresh memory is always zero (what glibc hands
+// out for fresh pages), requests never fail, and a bad or double free is
+// ignored (counted) instead of aborting the process, so that a defective tree
+// still yields a reference result and the defect is judged on the simulated
+// side.
+#include <unordered_set>
+namespace {
+std::unordered_set<void *> g_refLive;
+int64_t g_refBadFrees = 0;
+}  // namespace
+int64_t refallocBadFrees() { return g_refBadFrees; }
+int64_t refallocLive() { return (int64_t)g_refLive.size(); }
+void refallocSweep() {
+    for (void *p : g_refLive) free(p);
+    g_refLive.clear();
+    g_refBadFrees = 0;
+}
+extern "C" {
+void *refalloc_malloc(size_t n) {
+    void *p = calloc(1, n ? n : 1);
+    if (p) g_refLive.insert(p);
+    return p;
+}
+void *refalloc_calloc(size_t a, size_t b) {
+    size_t t;
+    if (__builtin_mul_overflow(a, b, &t)) return nullptr;
+    return refalloc_malloc(t);
+}
+void refalloc_free(void *p) {
+    if (!p) return;
+    if (!g_refLive.erase(p)) {
+        g_refBadFrees++;
+        return;
+    }
+    free(p);
+}
+void *refalloc_realloc(void *p, size_t n) {
+    if (!p) return refalloc_malloc(n);
+    if (!g_refLive.count(p)) {
+        g_refBadFrees++;
+        return nullptr;
+    }
+    void *q = realloc(p, n ? n : 1);
+    if (q) {
+        g_refLive.erase(p);
+        g_refLive.insert(q);
+    }
+    return q;
+}
+}
